@@ -183,19 +183,27 @@ def run_e2e(case, cap, OTelLineageExporter):
             def wait(s, timeout=None): s.set(); return True
         em._stop_event = OneShot(); em._heartbeat_loop()
         case['_event_keys'] = [sorted(k for k in (ev.run.facets.get('openfilter') or {})) for ev in backend if str(ev.eventType).endswith('RUNNING')]
+        import re as _re
+        bad = []
+        for ev in backend:      # histogram fields as the backend receives them: numbers, whatever the field ended up being called
+            for k, v in (ev.run.facets.get('openfilter') or {}).items():
+                if _re.search(r'_histogram__(buckets|counts)(_\d+)?$', k) and not (isinstance(v, list) and all(isinstance(x, (int, float)) and not isinstance(x, bool) for x in v)):
+                    bad.append(f'{k} = {v!r}'[:120])
+                if _re.search(r'_histogram__(count|sum)(_\d+)?$', k) and (isinstance(v, bool) or not isinstance(v, (int, float))): bad.append(f'{k} = {v!r}'[:120])
+        case['_event_hist_bad'] = bad
         return (canon_facet(facets[0]) if facets else None), (flatten_md(seen[0]) if seen else [])
     finally:
         try: cl.provider.shutdown()
         except Exception: pass
 
 
-OTEL_NAMES = ['frames', 'frames_total', 'fps', 'cpu', 'secret', 'det_count', 'a', 'ab', 'abc', 'x-y', 'm.n', 'abcd', 'fpss', 'xfps', 'secret2', 'my_secret',
+OTEL_NAMES = ['frames', 'frames_total', 'fps', 'cpu', 'secret', 'det_count', 'a', 'ab', 'abc', 'x-y', 'm.n', 'm_n', 'lat.ms', 'lat_ms', 'abcd', 'fpss', 'xfps', 'secret2', 'my_secret',
               'det_', 'x-yz', 'confidence_avg', 'frame_size', 'detections']
 
 
 def gen_e2e_case(rng):
     r = rng.random()
-    allow = [] if r < 0.2 else rng.sample(OTEL_NAMES + PATS + ['f_*', 'f_fps', '*_cpu', 'F_fps'], rng.randint(1, 4))
+    allow = [] if r < 0.2 else ['*'] if r < 0.3 else ['m?n', 'lat?ms', 'frames*'] if r < 0.4 else rng.sample(OTEL_NAMES + PATS + ['f_*', 'f_fps', '*_cpu', 'F_fps'], rng.randint(1, 4))
     allow = [a for a in allow if ',' not in a and a == a.strip() and a]
     specs, used = [], set()
     for _ in range(rng.randint(0, 5)):
@@ -250,6 +258,8 @@ def oracle(case, impl):
         for k, v in (facet or []):
             if isinstance(v, dict) and 'buckets' in v: ok_keys |= {norm(k) + '__' + x for x in ('buckets', 'counts', 'count', 'sum')}
             else: ok_keys.add(norm(k))
+        for b in (case.get('_event_hist_bad') or [])[:1]:
+            out.append(('hist-types-backend', f'histogram field reaches the lineage backend non-numeric: {b}'))
         for keys in case.get('_event_keys') or []:
             import re as _re, keyword as _kw
             okf = {field(k) for k in ok_keys} | {field(k) + '_' for k in ok_keys if _kw.iskeyword(field(k))}
